@@ -237,6 +237,12 @@ def c18_feed(paths):
                                 if val != "err":
                                     cls = "feed_previous_dummy_round" if nb == len(subs) else "feed_previous_beyond"
                                     bad(cls, f"{k}={val} although only {len(subs)} rounds were submitted")
+                        elif k.startswith("twap.") and val == "err" and len(subs) == 1 and int(k[5:]) > 0 and subs[0][0] < (1 << 64):
+                            # one submission (not in the future): lowest = highest = that price, so the TWAP is that price;
+                            # an aborting query is not an answer between them
+                            m.stats["checked"] += 1
+                            m.hit("feed-twap-single-round")
+                            bad("feed_twap_unavailable", f"{k}=err with a single submission {subs[0][0]}@{subs[0][1]} (now {now})")
                         elif k.startswith("twap.") and val != "err" and subs:
                             iv = int(k[5:])
                             base = now - iv
